@@ -321,6 +321,8 @@ PROPS["C10"] = {
     "assumptions": ["a silent client (no output, keeps running) is bounded by the runner's fixed 20 s read timeout and is not generated",
                     "when the client does not read stdin an answer may precede the registration of its request; only exactly-once and no-phantom-success are asserted then"],
     "units": [
+        # the client is a real OS process (runCommand / os-exec pipes), exits early or answers garbage
+        {"name": "C10Process", "pkg": CC, "test": "TestVerifC10Process", "kind": "enum", "shards": {"quick": 4, "thorough": 4}, "timeout": 600},
         {"name": "C10DuplicateSend", "pkg": CC, "test": "TestVerifC10DuplicateSend", "kind": "enum"},
         {"name": "C10Multiplexer", "pkg": CC, "test": "TestVerifC10Multiplexer", "kind": "rapid", "race": {"quick": False, "thorough": True},
          "checks": {"quick": 5000, "thorough": 12000}, "shards": {"quick": 4, "thorough": 16}, "timeout": {"quick": 900, "thorough": 5400}},
@@ -357,6 +359,7 @@ PROPS["C04"] = {
          "shards": {"quick": 4, "thorough": 16}, "env_tier": {"quick": {"VERIF_C04_CASES": 3}, "thorough": {"VERIF_C04_CASES": 4}}},
         {"name": "C04Random", "pkg": CC, "test": "TestVerifC04Random", "kind": "rapid",
          "checks": {"quick": 20000, "thorough": 300000}, "shards": {"quick": 2, "thorough": 8}},
+        {"name": "C04FateTable", "pkg": CC, "test": "TestVerifC04FateTable", "kind": "enum", "shards": {"quick": 4, "thorough": 4}, "timeout": 900},
         {"name": "C04Fate", "pkg": CC, "test": "TestVerifC04Fate", "kind": "rapid",
          "checks": {"quick": 12, "thorough": 150}, "shards": {"quick": 4, "thorough": 16}, "timeout": {"quick": 900, "thorough": 5400}},
     ],
